@@ -146,7 +146,7 @@ func TestC08Rapid(t *testing.T) {
 	rec := evid.For("C08")
 	runRapid(t, 1200, 15000, func(rt *rapid.T) {
 		c := rec.Begin()
-		tc := newTwoChain(tcOpts{nExecutors: 1, otherFirst: rapid.IntRange(0, 1).Draw(rt, "otherFirst")})
+		tc := newTwoChain(tcOpts{nExecutors: 1, otherFirst: rapid.IntRange(0, 1).Draw(rt, "otherFirst"), otherAfter: rapid.IntRange(0, 1).Draw(rt, "otherAfter")})
 		w := &c08World{tc: tc, denoms: []string{"uinit", "uusdc"}, initial: map[string]math.Int{}}
 		for _, u := range tc.users {
 			tc.l2.Fund(u.Addr, coinOf("stake", 10))
@@ -167,8 +167,16 @@ func TestC08Rapid(t *testing.T) {
 			rt.Fatalf("C08 violated at step %d: %v\nhistory:\n%s", i, err, strings.Join(w.log, "\n"))
 		}
 		repeatSteps(rt, 50, func(i int) {
-			op := drawWeighted(rt, "op", []weighted{{"deposit", 7}, {"relay", 7}, {"withdraw", 6}, {"transfer", 2}, {"cut", 4}, {"advance", 4}, {"claim", 6}, {"challenge", 2}, {"dup-relay", 2}})
+			op := drawWeighted(rt, "op", []weighted{{"deposit", 7}, {"relay", 7}, {"withdraw", 6}, {"transfer", 2}, {"cut", 4}, {"advance", 4}, {"claim", 6}, {"challenge", 2}, {"dup-relay", 2}, {"neighbour", 2}})
 			switch op {
+			case "neighbour":
+				// ordinary life on another bridge of the same L1 (outputs proposed, one challenged)
+				if len(tc.neighbours) == 0 {
+					return
+				}
+				id := tc.neighbours[rapid.IntRange(0, len(tc.neighbours)-1).Draw(rt, "neighbour")]
+				w.logf("%s", tc.neighbourChallenge(id, uint64(rapid.IntRange(1, 2).Draw(rt, "nfrom"))))
+				c.Class("activity-on-a-neighbouring-bridge")
 			case "deposit":
 				from := tc.users[rapid.IntRange(0, 4).Draw(rt, "from")]
 				recipient := tc.users[rapid.IntRange(0, 4).Draw(rt, "to")]
